@@ -142,29 +142,33 @@ def check(axioms, defs, pc, goal, hints=(), canary=False, both=False, budget=1.0
         return {"status": "vacuous" if r == z3.unsat else "canary-ok", "solver": "z3-ematch", "ms": int(1000 * (time.time() - t0))}
     smt2 = None
     last = ("unknown", "z3")
+    # the query is serialised and solved in a FRESH z3 context: the verdict then depends on the VC text only, not on which other
+    # terms this process happened to create before (E-matching is sensitive to internal term order)
+    s0 = z3.Solver()
+    s0.add(fmls)
+    text = s0.to_smt2()
     for name, opts, to in Z3_CONFIGS:
         if name not in stages:
             continue
-        s = z3.Solver()
+        ctx = z3.Context()
+        s = z3.Solver(ctx=ctx)
         s.set("timeout", int(to * budget))
         for k, v in opts.items():
             s.set(k, v)
-        s.add(fmls)
+        s.from_string(text)
         r = s.check()
         if r == z3.unsat:
             res = {"status": "proved", "solver": name, "ms": int(1000 * (time.time() - t0))}
             if both:
-                res["cvc5"] = cvc5_check(s.to_smt2(), int(CVC5_TIMEOUT_MS * budget))
+                res["cvc5"] = cvc5_check(text, int(CVC5_TIMEOUT_MS * budget))
             return res
         if r == z3.sat:
-            return {"status": "refuted", "solver": name, "ms": int(1000 * (time.time() - t0)), "model": model_summary(s.model()), "smt2": s.to_smt2()[:200000]}
-        smt2 = s.to_smt2()
+            return {"status": "refuted", "solver": name, "ms": int(1000 * (time.time() - t0)), "model": model_summary(s.model()), "smt2": text[:200000]}
+        smt2 = text
     if "cvc5" not in stages:
         return {"status": "unknown", "solver": "+".join(stages), "ms": int(1000 * (time.time() - t0)), "partial": True}
     if smt2 is None:
-        s = z3.Solver()
-        s.add(fmls)
-        smt2 = s.to_smt2()
+        smt2 = text
     r = cvc5_check(smt2, int(CVC5_TIMEOUT_MS * budget))
     if r == "unsat":
         return {"status": "proved", "solver": "cvc5", "ms": int(1000 * (time.time() - t0))}
